@@ -90,7 +90,8 @@ func c07Variants(profile string) []c07Variant {
 	var vs []c07Variant
 	// optional JAR, one algorithm, by reference allowed
 	vs = append(vs, c07Variant{Name: "optional", Profile: profile,
-		Opts:   append(common(), Opt{Name: "WithPAR", Z: 60}, Opt{Name: "WithJAR"}, Opt{Name: "WithJARByReference"}, Opt{Name: "WithCIBAJAR"}, Opt{Name: "WithImplicitGrant"}),
+		// (mTLS aliases configured: the audiences a client assertion may name include them)
+		Opts:   append(common(), Opt{Name: "WithPAR", Z: 60}, Opt{Name: "WithJAR"}, Opt{Name: "WithJARByReference"}, Opt{Name: "WithCIBAJAR"}, Opt{Name: "WithImplicitGrant"}, Opt{Name: "WithMTLS"}),
 		JC:     JCfg{Algs: []string{"AES256"}, CibaAlgs: []string{"AES256"}},
 		Static: c07Clients(false), JCl: jcl("", "", "")})
 	// required JAR with 'none' enabled, JWE layer enabled, PAR required for nobody, CIBA JAR required
@@ -116,13 +117,13 @@ func innerParams(profile string, client int) Params {
 
 func baseRO(profile string, client int) RO {
 	k := clientKey(client, 1)
-	return RO{Enc: "EncNone", Sig: "SigBy", SigKey: k, Alg: "AES256", Kid: kidOf(k), Iss: client, AudOK: true,
+	return RO{Enc: "EncNone", Sig: "SigBy", SigKey: k, Alg: "AES256", Kid: kidOf(k), Iss: client, Aud: []string{"AudForeign", "AudIssuer"},
 		Exp: ip(300), Nbf: ip(-10), Iat: ip(-10), Jti: true, ClientID: client, Params: innerParams(profile, client)}
 }
 
 func cibaRO(client int) RO {
 	k := clientKey(client, 1)
-	return RO{Enc: "EncNone", Sig: "SigBy", SigKey: k, Alg: "AES256", Kid: kidOf(k), Iss: client, AudOK: true,
+	return RO{Enc: "EncNone", Sig: "SigBy", SigKey: k, Alg: "AES256", Kid: kidOf(k), Iss: client, Aud: []string{"AudForeign", "AudIssuer"},
 		Exp: ip(300), Nbf: ip(-10), Iat: ip(-10), Jti: true, ClientID: client, Params: Params{Scopes: "openid email", LoginHint: "alice@example"}}
 }
 
@@ -155,7 +156,7 @@ var roDevs = []roDev{
 		o.SigKey = 0
 		o.Alg = "ANone"
 		o.Kid = 0
-		o.Iss, o.AudOK, o.AudAbsent, o.Exp, o.Nbf, o.Iat, o.Jti = 0, false, true, nil, nil, nil, false
+		o.Iss, o.Aud, o.Exp, o.Nbf, o.Iat, o.Jti = 0, nil, nil, nil, nil, false
 	}},
 	{"stripped-signature", func(o *RO, c int) { o.Sig = "SigEmpty"; o.SigKey = 0 }},
 	{"none-over-signature-bytes", func(o *RO, c int) { o.Sig = "SigInvalid"; o.Alg = "ANone" }},
@@ -163,8 +164,30 @@ var roDevs = []roDev{
 	{"iss-other-client", func(o *RO, c int) { o.Iss = other(c) }},
 	{"iss-absent", func(o *RO, c int) { o.Iss = 0 }},
 	{"iss-not-a-client", func(o *RO, c int) { o.Iss = 99 }},
-	{"aud-wrong", func(o *RO, c int) { o.AudOK = false }},
-	{"aud-absent", func(o *RO, c int) { o.AudOK = false; o.AudAbsent = true }},
+	{"aud-wrong", func(o *RO, c int) { o.Aud, o.AudForm = []string{"AudForeign"}, "string" }},
+	{"aud-absent", func(o *RO, c int) { o.Aud = nil }},
+	// the audience near-misses: only the issuer itself, as one of the members, counts
+	{"aud-issuer-as-string", func(o *RO, c int) { o.Aud, o.AudForm = []string{"AudIssuer"}, "string" }},
+	{"aud-issuer-alone-in-array", func(o *RO, c int) { o.Aud = []string{"AudIssuer"} }},
+	{"aud-issuer-last-of-three", func(o *RO, c int) { o.Aud = []string{"AudForeign", "AudToken", "AudIssuer"} }},
+	{"aud-empty-array", func(o *RO, c int) { o.Aud, o.AudForm = nil, "array" }},
+	{"aud-issuer-trailing-slash", func(o *RO, c int) { o.Aud, o.AudForm = []string{"AudIssuerSlash"}, "string" }},
+	{"aud-issuer-other-case", func(o *RO, c int) { o.Aud, o.AudForm = []string{"AudIssuerCase"}, "string" }},
+	{"aud-token-endpoint", func(o *RO, c int) { o.Aud, o.AudForm = []string{"AudToken"}, "string" }},
+	{"aud-token-endpoint-in-array", func(o *RO, c int) { o.Aud = []string{"AudToken"} }},
+	{"aud-authorize-endpoint", func(o *RO, c int) { o.Aud, o.AudForm = []string{"AudAuthorize"}, "string" }},
+	{"aud-par-endpoint", func(o *RO, c int) { o.Aud, o.AudForm = []string{"AudPar"}, "string" }},
+	{"aud-bc-endpoint", func(o *RO, c int) { o.Aud, o.AudForm = []string{"AudBc"}, "string" }},
+	{"aud-request-url", func(o *RO, c int) { o.Aud, o.AudForm = []string{"AudRequestURL"}, "string" }},
+	{"aud-mtls-host", func(o *RO, c int) { o.Aud, o.AudForm = []string{"AudMtlsIssuer"}, "string" }},
+	{"aud-mtls-token-endpoint", func(o *RO, c int) { o.Aud, o.AudForm = []string{"AudMtlsToken"}, "string" }},
+	{"aud-mtls-request-url", func(o *RO, c int) { o.Aud = []string{"AudMtlsRequestURL"} }},
+	{"aud-client-id", func(o *RO, c int) { o.Aud, o.AudForm = []string{"AudClient"}, "string" }},
+	{"aud-near-miss-among-foreign", func(o *RO, c int) { o.Aud = []string{"AudForeign", "AudToken", "AudClient"} }},
+	{"aud-request-url-among-foreign", func(o *RO, c int) { o.Aud = []string{"AudForeign", "AudRequestURL"} }},
+	{"aud-every-assertion-audience-but-issuer", func(o *RO, c int) {
+		o.Aud = []string{"AudToken", "AudRequestURL", "AudMtlsToken", "AudMtlsRequestURL", "AudMtlsIssuer"}
+	}},
 	{"client_id-other", func(o *RO, c int) { o.ClientID = other(c) }},
 	{"client_id-absent", func(o *RO, c int) { o.ClientID = 0 }},
 	{"exp-absent", func(o *RO, c int) { o.Exp = nil }},
@@ -784,7 +807,7 @@ func c07NavMatrix(jr *jrunner) {
 }
 
 var c07Unauthentic = []string{"client_id-other", "client_id-absent", "iss-other-client", "foreign-key", "other-clients-key-its-kid", "payload-edited",
-	"aud-wrong", "exp-expired", "nbf-future", "unsigned-none", "stripped-signature", "none-over-signature-bytes", "jwe", "jwe-around-unsigned"}
+	"aud-wrong", "aud-token-endpoint", "aud-request-url-among-foreign", "exp-expired", "nbf-future", "unsigned-none", "stripped-signature", "none-over-signature-bytes", "jwe", "jwe-around-unsigned"}
 
 // directed push / redeem pairs: where the pushed request's redirect_uri points (registered, registered nowhere,
 // absent) x the redirect_uri sent again at redemption (none, the pushed one, another unregistered one, a registered
@@ -1071,12 +1094,17 @@ func init() {
 				default:
 					// an authorization request without request_uri: by value or plain
 					// (a URI that was only pushed is not registered: fix 3b355ea)
-					if r.Intn(2) == 0 {
+					if x := r.Intn(5); x < 2 {
 						o := baseRO(profile, client)
 						if r.Intn(5) == 0 {
 							o.Params.Redirect = c07PushedOnly
 						}
 						do(mkAuthorize(r, profile, client, "value", &o, true, "by-value"))
+					} else if x == 2 {
+						// by reference: an https request_uri that is NOT a pushed one (where PAR is required it must be
+						// looked up as a pushed request and refused; elsewhere the object behind it is used)
+						o := baseRO(profile, client)
+						do(mkAuthorize(r, profile, client, "ref", &o, true, "by-reference"))
 					} else {
 						op := mkAuthorize(r, profile, client, "", nil, true, "plain")
 						op.Base.Params = innerParams(profile, client)
@@ -1090,7 +1118,7 @@ func init() {
 			c.Note = fmt.Sprintf("%s/%s history %d", profile, v.Name, i)
 			jr.cases = append(jr.cases, c)
 		}
-		ctx.Meta.Rule = "random push / authorize (pushing or other client, outer parameters incl. error-producing ones combined with unregistered redirect_uris, policy verdicts) / reuse / tick histories with two clients, with and without request objects, three profiles, PAR optional or required, unregistered redirect_uris admitted for PAR or not (a pushed-only URI presented again in later pushed, by-value and plain requests); distinct by projected trace; non-trivial = at least one accepted and one refused request"
+		ctx.Meta.Rule = "random push / authorize (pushing or other client, outer parameters incl. error-producing ones combined with unregistered redirect_uris, policy verdicts) / reuse / tick histories with two clients, with and without request objects, three profiles, request objects by value and by reference (https request_uris that were never pushed), PAR optional or required (server, client), unregistered redirect_uris admitted for PAR or not (a pushed-only URI presented again in later pushed, by-value and plain requests); distinct by projected trace; non-trivial = at least one accepted and one refused request"
 		jr.write("mon_C07")
 	}})
 }
